@@ -7,7 +7,9 @@ scale obligations that let TLC evaluate it at 16 ticks per unit instead of 2^60 
 TLC (MC_DoubleSign.tla) evaluates the operators on boundary vectors (timestamps at 0, +-1, +-7, +-8, +-9, +-20 units
 from now with +-1 ns offsets, i.e. also beyond the duration range; thresholds from MinDur to MaxDur); each
 vector is converted to time.Time / time.Duration and run through the real SyncedToEmit /
-DetectParallelInstance, and the verdict and the wait are compared with TLC's (pattern R, stateless)."""
+DetectParallelInstance in six representations of the same instants (location, monotonic reading, construction;
+unset timestamps as the zero instant in five representations), and the set of distinct verdicts/waits must be the
+singleton TLC gives (pattern R, stateless)."""
 import json
 import subprocess
 import shutil
@@ -53,14 +55,17 @@ def run(c):
     rep = vlib.replay_edges(c, "doublesign", edges, walks=0, wlen=0, clause="guard-verdict")
     c.log("real code: %d vectors applied, %d disagreements %s" % (rep["applied"], rep["mismatch_count"], json.dumps(rep.get("sigs"))))
     # what the vectors exercise (read from TLC's output)
-    st = dict(permitted=0, refused_with_wait=0, refused_wait_capped=0, refused_unconstrained=0, parallel_yes=0, parallel_no=0)
+    st = dict(permitted=0, refused_with_wait=0, refused_wait_capped=0, refused_unconstrained=0, parallel_yes=0, parallel_no=0,
+              with_unset_timestamp=0)
     classes = {}
     samples = []
     with open(edges) as f:
         for i, line in enumerate(f):
             a = json.loads(line)["act"]
             classes[a["op"]] = classes.get(a["op"], 0) + 1
-            r = a["res"]
+            r = a["res"][0]
+            if a["in"].get("zero"):
+                st["with_unset_timestamp"] += 1
             if "parallel" in r:
                 st["parallel_yes" if r["parallel"] else "parallel_no"] += 1
             elif r["permitted"]:
@@ -101,4 +106,7 @@ def run(c):
                     "no peer / P2P sync unfinished: an error is required, the wait is not constrained (DESIGN.md section 7); the wait returned "
                     "together with a permission is not constrained either",
                     "which error is returned is not compared",
-                    "timestamps carry no monotonic clock reading (built with time.Unix)"])
+                    "every vector is run in six representations of the same instants (local / UTC / fixed-zone location, rebuilt from "
+                    "Unix seconds, derived from time.Now() with monotonic readings, mixed); the set of distinct outcomes must be the "
+                    "singleton TLC gives; an unset timestamp is the zero instant in five representations and, for the specification, "
+                    "a timestamp more than 50 units in the past"])
